@@ -83,7 +83,7 @@ def run(ctx):
     # thread-local cells (`thread_local!`): reached through LocalKey::with, so the static inventory above cannot see them
     import tls
     tinv, tper = tls.inventory(prog)
-    scoped, tls_open = [], []
+    scoped, tls_open, sinks = [], [], []
     by_path = {b.path: b for b in prog.lib_bodies()}
     for key, e in sorted(tinv.items(), key=lambda kv: str(kv[0])):
         users = e["readers"] | e["writers"]
@@ -94,8 +94,22 @@ def run(ctx):
             continue
         if not e["writers"]:
             continue            # never written: a per-thread constant
+        # a statistic: nothing the search-side closures see of the cell leaves them (they return unit and capture nothing
+        # mutably), so the cell can feed only itself; its readers are accessors outside the search
+        in_search = [o for fp, os_ in tper.items() if fp in reach for o in os_ if o["key"] == key]
+        if in_search and not any(o["flows_out"] for o in in_search):
+            sinks.append(key)
+            continue
         bad = None
-        for w in sorted(e["writers"]):
+        # the functions that change the cell, and the functions that call those (they hold the guards)
+        holders = set(e["writers"])
+        for g in prog.lib_bodies():
+            if g.kind == "Closure":
+                continue
+            for _i, t_ in g.calls():
+                if (t_["callee"].get("resolved") or t_["callee"].get("path") or "") in e["writers"]:
+                    holders.add(g.path)
+        for w in sorted(holders):
             wb = by_path.get(w)
             if wb is None:
                 bad = (w, {None})
@@ -111,6 +125,7 @@ def run(ctx):
         else:
             tls_open.append((key, bad))
     ctx.extra["scoped_thread_local_counters"] = scoped
+    ctx.extra["thread_local_statistics_not_read_by_the_search"] = sinks
     MQ = prog.one("s_complex::make_query")
     PQ = prog.one("s_complex::parse_query")
     if MQ is None or PQ is None:
